@@ -8,6 +8,7 @@
 import PySpikeVerif.Spec.Sync
 import PySpikeVerif.Proofs.ApiLaws
 import PySpikeVerif.Proofs.SyncScan
+import PySpikeVerif.Proofs.OrderLaws
 
 namespace PySpike.C04
 open PySpike
@@ -74,5 +75,55 @@ theorem same_coincidences_as_sync (s1 s2 : List Q) (tm m a : Q) :
   · split
     · intro _; rfl
     · intro h; exact absurd rfl h
+
+/-! ### Proofs/OrderLaws.lean (work package B2) -/
+
+/-- swapping the two trains negates the spike-train-order profile (same times and multiplicities) -/
+theorem swap_negates_order_profile (s1 s2 : List Q) (ts te mt m : Q)
+    (h1 : s1.Pairwise (· < ·)) (h2 : s2.Pairwise (· < ·)) (hne : s1 ≠ [] ∨ s2 ≠ []) :
+    orderProfile s2 s1 ts te mt m = (orderProfile s1 s2 ts te mt m).map (fun e => (e.1, -e.2.1, e.2.2)) :=
+  orderProfile_swap_neg s1 s2 ts te mt m h1 h2 hne
+
+/-- each train keeps its own directionality values when the arguments are swapped … -/
+theorem swap_directionality_values (s1 s2 : List Q) (ts te mt m : Q)
+    (h1 : s1.Pairwise (· < ·)) (h2 : s2.Pairwise (· < ·)) :
+    dirProfile s2 s1 ts te mt m = ((dirProfile s1 s2 ts te mt m).2, (dirProfile s1 s2 ts te mt m).1) :=
+  dirProfile_swap s1 s2 ts te mt m h1 h2
+
+/-- … every coincidence writes +1 on the leader and -1 on the follower, so the two sums cancel … -/
+theorem leader_follower_cancel (s1 s2 : List Q) (ts te mt m : Q)
+    (h1 : s1.Pairwise (· < ·)) (h2 : s2.Pairwise (· < ·)) :
+    qsum (dirProfile s1 s2 ts te mt m).1 + qsum (dirProfile s1 s2 ts te mt m).2 = 0 :=
+  dirProfile_sum_zero s1 s2 ts te mt m h1 h2
+
+/-- … hence the un-normalised directionality of A w.r.t. B is minus that of B w.r.t. A -/
+theorem swap_negates_directionality (kw : Kw) (a b : Train) (hts : a.ts = b.ts) (hte : a.te = b.te) :
+    spikeDirectionality kw false b a = - spikeDirectionality kw false a b :=
+  B2_spikeDirectionality_swap kw a b hts hte
+
+/-- the summed order profile is twice the directionality (sum of A's values), the multiplicity the
+    total number of spikes -/
+theorem order_integral_is_twice_directionality (s1 s2 : List Q) (ts te mt m : Q)
+    (h1 : s1.Pairwise (· < ·)) (h2 : s2.Pairwise (· < ·)) :
+    (Disc.mk (orderProfile s1 s2 ts te mt m)).integralAll
+      = (2 * qsum (dirProfile s1 s2 ts te mt m).1, (s1.length : Q) + (s2.length : Q)) :=
+  B2_orderProfile_integral s1 s2 ts te mt m h1 h2
+
+/-- **synfire indicator** = twice the upper-triangle sum of the directionality matrix divided by
+    (N-1) times the number of spikes (1 by convention when there are no spikes) -/
+theorem synfire_identity (kw : Kw) (L : List Train) (hr : kw.recon = true) :
+    spikeTrainOrderMulti kw none L =
+      (let L' := prep kw L
+       let n := L'.length
+       let T := qsum (L'.map fun t => (t.spikes.length : Q))
+       if ((n : Q) - 1) * T = 0 then 1
+       else 2 * B2_upperSum (spikeDirectionalityMatrix kw false none L) n / (((n : Q) - 1) * T)) :=
+  B2_spikeTrainOrderMulti_synfire_all kw L hr
+
+/-- directionality values are +1 (leads), -1 (follows) or 0 -/
+theorem directionality_values_signs (s1 s2 : List Q) (ts te mt m : Q) :
+    (∀ v ∈ (dirProfile s1 s2 ts te mt m).1, v = -1 ∨ v = 0 ∨ v = 1) ∧
+      (∀ v ∈ (dirProfile s1 s2 ts te mt m).2, v = -1 ∨ v = 0 ∨ v = 1) :=
+  B2_dirProfile_values s1 s2 ts te mt m
 
 end PySpike.C04
